@@ -40,9 +40,9 @@ func init() {
 		Real: "real: all of kvql from /repo's working tree; simulated: storage engine, caller",
 		NCases: func(tier string) int {
 			if tier == "thorough" {
-				return len(c08Grid())
+				return len(c08Grid()) * c08Replicas
 			}
-			return 30000
+			return 150000
 		},
 		Gen:        genC08,
 		Run:        runC08,
@@ -51,12 +51,16 @@ func init() {
 		Finish: func(st *Stats, cov map[string]any, tier string) string {
 			if tier == "thorough" {
 				cov["grid_points"] = len(c08Grid())
+				cov["replicas_per_grid_point"] = c08Replicas
 				cov["grid"] = "B∈{1,2,3,5,8}: R∈[0,3B+1] × s∈[0,R+2] × n∈{0,1,2,B-1,B,B+1,R,R+1}; B=32: R,s thinned to multiples of B ±1 and the ends; × 11 families × 2 drain modes"
 			}
 			return ""
 		},
 	})
 }
+
+// thorough: every grid point is executed with this many differently seeded stores/configs
+const c08Replicas = 6
 
 var c08Families = []string{"plain", "plain-filtered", "ordered", "ordered-ties", "aggregate", "aggregate-ordered", "delete", "delete-filtered", "aggregate-all", "ordered-2keys", "mget"}
 
@@ -242,10 +246,7 @@ func genC08(seed uint64, i int, tier string) *Scenario {
 	r := NewRng(seed)
 	if tier == "thorough" {
 		g := c08Grid()
-		if i >= len(g) {
-			return nil
-		}
-		return c08Build(r, g[i])
+		return c08Build(r, g[i%len(g)])
 	}
 	// quick: sampled, with forced coincidences
 	b := pick(r, []int{1, 2, 3, 5, 8, 32})
